@@ -352,12 +352,8 @@ def signature(case, verdict, failed):
     err = (case.get("impl") or {}).get("err")
     fl = "/".join(sorted(failed))
     if op == "project" and failed == ["spec"]:
-        if err == "ERR:StopIteration" and "model-ERR:StopIteration" in t:
-            return "project:StopIteration-on-all-empty-fiber"
         if err == "rejected" and "model-rejected" in t and "sp-valid" in t:
             return "project:valid-start_pos-rejected-by-source-space-assert"
-        if "rev-nonzero-default" in t and case["d"] == 0 and err is None:
-            return "project:reversed-filters-by-default-0"
     return f"{op}:{fl}:{err or 'no-exception'}"
 
 
